@@ -128,15 +128,17 @@ Section Iter.
     apply (starts_increasing l1 _ l2 _ E). apply (later_in j j' l1 l2 E Hl). lia.
   Qed.
 
+  Lemma start_0 : 0 < n -> start_at 0 = first_leaf.
+  Proof.
+    intros Hn. pose proof (b_first _ _ _ B) as F. unfold start_at, ri_StartID, nth_rnode, nthZ.
+    destruct rs as [|r0 rs']; [unfold n in Hn; cbn [length] in Hn; lia|]. cbn [map hd] in F.
+    cbn [Z.ltb Z.compare Z.to_nat nth]. exact F.
+  Qed.
+
   Lemma start_ge_first j : 0 <= j < n -> first_leaf <= start_at j.
   Proof.
-    intros Hj. destruct (Z.eq_dec j 0) as [->|Hne].
-    - pose proof (b_first _ _ _ B) as F. unfold start_at, ri_StartID, nth_rnode, nthZ. cbn.
-      destruct rs as [|r0 rs']; [cbn in Hj; unfold n in Hj; cbn in Hj; lia|]. cbn in *. lia.
-    - pose proof (start_mono 0 j ltac:(lia) ltac:(lia) ltac:(lia)).
-      assert (first_leaf <= start_at 0); [|lia].
-      pose proof (b_first _ _ _ B) as F. unfold start_at, ri_StartID, nth_rnode, nthZ. cbn.
-      destruct rs as [|r0 rs']; [unfold n in Hj; cbn in Hj; lia|]. cbn in *. lia.
+    intros Hj. pose proof (start_0 ltac:(lia)) as E0. destruct (Z.eq_dec j 0) as [->|Hne]; [lia|].
+    pose proof (start_mono 0 j ltac:(lia) ltac:(lia) ltac:(lia)). lia.
   Qed.
 
   Lemma chain_exists j : 0 <= j < n -> exists s, is_chain tree (cont_at j) s /\
@@ -302,7 +304,7 @@ Section Iter.
     intros Hposs Hsorted.
     destruct (sweep_gen poss ci_new [] Hposs ltac:(intros ? []) Hsorted ltac:(intros ? ? []) ltac:(cbn; lia)
                 ltac:(intros ? []) ltac:(left; reflexivity)) as (idxs & E & ND & _ & D2 & D3).
-    { intros p Hp. cbn. pose proof (start_ge_first p (Hposs p Hp)). rewrite first_leaf_eq in H. lia. }
+    { intros p Hp. cbn [ci_new ci_prevStart]. pose proof (start_ge_first p (Hposs p Hp)). rewrite first_leaf_eq in H. lia. }
     exists idxs. split; [exact E|]. split; [exact ND|]. intros i. split; [apply D3|].
     intros Hi. destruct (D2 i Hi) as [H|(v & s & [] & _)]. exact H.
   Qed.
@@ -318,15 +320,12 @@ Section Iter.
   Lemma n_ge_2 : 2 <= n.
   Proof.
     pose proof (b_first _ _ _ B) as F. pose proof (b_last _ _ _ B) as L. unfold n.
-    destruct rs as [|r0 [|r1 t]]; cbn in *; try lia;
-      rewrite first_leaf_eq in F; rewrite end_leaf_eq in L; lia.
+    rewrite first_leaf_eq in F. rewrite end_leaf_eq in L.
+    destruct rs as [|r0 [|r1 t]]; cbn [map hd last length] in *; lia.
   Qed.
 
   Lemma start_first : start_at 0 = first_leaf.
-  Proof.
-    pose proof (b_first _ _ _ B) as F. pose proof n_ge_2. unfold start_at, ri_StartID, nth_rnode, nthZ. cbn.
-    destruct rs as [|r0 t]; [unfold n in H; cbn in H; lia|]. exact F.
-  Qed.
+  Proof. apply start_0. pose proof n_ge_2. lia. Qed.
 
   Lemma start_last : start_at (n - 1) = end_leaf.
   Proof.
